@@ -21,7 +21,11 @@ RULE = ("corpus, then the definition-time table COMPLETELY (api incl. attrs.froz
         "30% of decorator-built classes in random chains get such a history too; 15% of random fields are init=False), then chains of <=4 classes (attrs via attr.s/"
         "these/make_class/define/mutable/frozen, plain classes with/without __slots__ in between, optional Exception root) over "
         "per-field {on_setattr: None, NO_OP, [], hook, [h1,h2], frozen, validate, convert and mixed pipes} x {converter: none, "
-        "plain, Converter(takes_self,takes_field) x4} x {0,1,2 validators} x private names x redefinition in subclasses, per-class "
+        "plain, Converter(takes_self,takes_field) x4} x {0,1,2 validators} x private names x redefinition in subclasses x name SHAPE "
+        "(4/9 of all chains, systematic and random, are respelt consistently along the chain with dunder-like `__x__`, trailing-"
+        "underscore `y__`/`x_` and `_p_` field names, and then half the time a dunder-like non-field name `__nf__`; harness-only "
+        "variation: the model treats a name as an opaque string, so a name-shape shortcut in the generated __setattr__ shows as a "
+        "missing hook run; leading-`__` names without trailing `__` are excluded because type() mangles them in __slots__), per-class "
         "{on_setattr: None, NO_OP, bare hook/validate/convert/frozen, lists incl. [], define's default} x slots x frozen x own "
         "__setattr__ x auto_detect: a systematic block (single class: every field-level x class-level combination x whether "
         "another field has a converter/validator; two/three-class shapes hooked-base/unhooked-sub and vice versa with a plain or "
@@ -90,6 +94,36 @@ LEVEL_TEXT = (
     "a user-written __setattr__ is outside the run-time clauses (only the definition-time table and model agreement apply).")
 
 NAMES = ["x", "y", "_p"]
+# name SHAPES (harness-only variation; the model treats a field name as an opaque string): a field may be called anything
+# Python accepts as an attribute -- dunder-like (`__x__`: legal, not name-mangled, listed in fields()), trailing
+# underscores, underscore on both sides.  Every map keeps the __init__ aliases (name.lstrip("_")) distinct.  Leading-`__`
+# names without a trailing `__` are left out: type() mangles them in __slots__.
+NAME_SHAPES = {
+    "plain": {},
+    "dunder": {"x": "__x__", "y": "__y__", "_p": "__p__", "z": "__z__", "w": "__w__"},
+    "mixed": {"x": "__x__", "y": "y__", "_p": "_p_", "w": "__w__"},
+    "mixed2": {"x": "x_", "y": "__y__", "z": "__z__"},
+}
+
+
+def is_dunder(n):
+    return len(n) > 4 and n[:2] == "__" and n[-2:] == "__"
+
+
+def reshape(classes, shape):
+    """the same chain with its field names spelt in another shape (consistently along the chain, so a redefinition stays one)"""
+    m = NAME_SHAPES[shape]
+    if not m:
+        return classes
+    classes = copy.deepcopy(classes)
+    for cs in classes:
+        for f in cs["fields"]:
+            f["name"] = m.get(f["name"], f["name"])
+    return retag(classes)
+
+
+def pick_shape(rng):
+    return rng.choice(["plain"] * 5 + ["dunder", "dunder", "mixed", "mixed2"])
 FAULT_KINDS = ["user", "keyError", "lookupError", "attributeError", "typeError", "valueError", "stopIteration",
                "baseException"]
 _KIND_CTR = [0]
@@ -467,7 +501,9 @@ def cases_for_chain(classes, rng, tier, budget):
     if err is not None:
         yield mk_case(classes, [], None, False, True)
         return
-    names = [f["name"] for f in cb.resolved_fields(classes)] + ["nf"]
+    names = [f["name"] for f in cb.resolved_fields(classes)]
+    # the non-field name: dunder-like too when some field is (a non-field is a plain store whatever it is called)
+    names.append("__nf__" if any(is_dunder(n) for n in names) and rng.random() < 0.5 else "nf")
     for nm in names:
         preset = rng.random() < 0.7
         r = rng.random()
@@ -544,10 +580,10 @@ def gen_cases(tier, rng):
                 if ch is None:
                     done_sys = True
                     break
-                yield from cases_for_chain(ch, rng, tier, 1)
-        yield from cases_for_chain(gen_chain(rng, dirty=False), rng, tier, 2 if tier == "quick" else 4)
+                yield from cases_for_chain(reshape(ch, pick_shape(rng)), rng, tier, 1)
+        yield from cases_for_chain(reshape(gen_chain(rng, dirty=False), pick_shape(rng)), rng, tier, 2 if tier == "quick" else 4)
         if r % 4 == 0:
-            yield from cases_for_chain(gen_chain(rng, dirty=True), rng, tier, 1)
+            yield from cases_for_chain(reshape(gen_chain(rng, dirty=True), pick_shape(rng)), rng, tier, 1)
 
 
 def observe(case):
@@ -617,6 +653,12 @@ def dist(case, obs):
                                    "held" if a["value"].startswith("i.") else
                                    "eq" if a["value"].startswith("eq:") else "token" for a in case["history"]})),
         "rv": case["runValidators"], "preset": case["preset"],
+        "name_shape": ",".join(sorted({("dunder" if is_dunder(n) else "trailing_" if n.endswith("_") else
+                                        "private" if n.startswith("_") else "plain")
+                                       for n in [f["name"] for c in cl for f in c["fields"]]})) or "none",
+        "assigned_dunder": ("field" if any(is_dunder(a["name"]) and any(f["name"] == a["name"] for c in cl for f in c["fields"])
+                                           for a in case["history"]) else
+                            "nonfield" if any(is_dunder(a["name"]) for a in case["history"]) else "no"),
         "exc": ",".join(excs) or "none",
         "defErr": "none" if not isinstance(obs, dict) or obs.get("defErr") is None else f"cls{obs['defErr'][0]}:{obs['defErr'][1]}",
         "dirty": any(c["frozenArg"] or c["ownSetattr"] for c in cl),
